@@ -43,7 +43,16 @@ func Load(c Case) (*yang.Modules, error) {
 	ms := yang.NewModules()
 	ms.ParseOptions.IgnoreSubmoduleCircularDependencies = c.IgnoreCircular
 	ms.ParseOptions.DeviateOptions.IgnoreDeviateNotSupported = c.IgnoreNotSupported
+	// Extra["process_after"] = k: an intermediate Process() after the first k texts (incremental
+	// loading; the result must be that of the batch run)
+	k := -1
+	if v, ok := c.Extra["process_after"]; ok {
+		fmt.Sscanf(v, "%d", &k)
+	}
 	for i := range c.Names {
+		if i == k {
+			ms.Process()
+		}
 		if err := ms.Parse(c.Texts[i], c.Names[i]); err != nil {
 			return ms, fmt.Errorf("%s: %v", c.Names[i], err)
 		}
